@@ -787,3 +787,154 @@ func init() {
 		}
 	})
 }
+
+// ---- a serializer fills the buffer it made (C11.16) ----
+//
+// buf := make([]byte, S); fields are put at increasing offsets; the buffer is written or returned. Where the end of the last
+// field (offset + width of the write that no other write follows) and S are both linear forms over the same symbols, they are
+// equal, or differ by the 4 bytes of a checksum that is stored by a later statement: a cursor advance that was dropped or doubled
+// shifts every later field and shows as a constant difference.
+func serializerFillsBufferRule(c *Ctx, r *Result, rule string, floor int) {
+	n := 0
+	for _, fn := range c.LibFuncs() {
+		pk := shortPkg(fnPkgPath(fn))
+		if fn.Blocks == nil || (pk != "core" && pk != "structures" && pk != "hdf5" && pk != "writer") {
+			continue
+		}
+		// one byte buffer made here, no loops touching it
+		var mk *ssa.MakeSlice
+		cnt := 0
+		instrs(fn, func(in ssa.Instruction) {
+			if m, ok := in.(*ssa.MakeSlice); ok {
+				if sl, isSl := m.Type().Underlying().(*types.Slice); isSl {
+					if b, isB := sl.Elem().Underlying().(*types.Basic); isB && b.Kind() == types.Uint8 {
+						mk = m
+						cnt++
+					}
+				}
+			}
+		})
+		if cnt != 1 {
+			continue
+		}
+		hasLoop := false
+		for _, b := range fn.Blocks {
+			for _, p := range b.Preds {
+				if b.Dominates(p) {
+					hasLoop = true
+				}
+			}
+		}
+		if hasLoop {
+			continue
+		}
+		fb := c.FB(fn)
+		S := fb.lin(mk.Len)
+		// all writes into the buffer: (low, width)
+		type wr struct {
+			end Lin
+			in  ssa.Instruction
+		}
+		var writes []wr
+		instrs(fn, func(in ssa.Instruction) {
+			switch x := in.(type) {
+			case *ssa.Call:
+				com := x.Common()
+				name := ""
+				if com.IsInvoke() {
+					name = com.Method.Name()
+				} else if f := com.StaticCallee(); f != nil {
+					name = f.Name()
+				}
+				var dst ssa.Value
+				var width Lin
+				ok := false
+				switch {
+				case strings.HasPrefix(name, "PutUint") && len(com.Args) >= 2:
+					dst = com.Args[len(com.Args)-2]
+					switch {
+					case strings.HasSuffix(name, "16"):
+						width, ok = linConst(2), true
+					case strings.HasSuffix(name, "32"):
+						width, ok = linConst(4), true
+					case strings.HasSuffix(name, "64"):
+						width, ok = linConst(8), true
+					}
+				default:
+					if b, isB := com.Value.(*ssa.Builtin); isB && b.Name() == "copy" {
+						dst = com.Args[0]
+						width, ok = fb.lenLin(com.Args[1]), true
+					} else if g := com.StaticCallee(); g != nil && inModule(fnPkgPath(g)) && len(com.Args) >= 3 && isIntType(com.Args[2].Type()) {
+						if _, isSl := com.Args[0].(*ssa.Slice); isSl {
+							dst = com.Args[0]
+							width, ok = fb.lin(com.Args[2]), true
+						}
+					}
+				}
+				if !ok || dst == nil {
+					return
+				}
+				sl, isSl := dst.(*ssa.Slice)
+				if !isSl || stripSlices(sl) != ssa.Value(mk) {
+					return
+				}
+				lo := linConst(0)
+				if sl.Low != nil {
+					lo = fb.lin(sl.Low)
+				}
+				writes = append(writes, wr{lo.add(width, 1), in})
+			case *ssa.Store:
+				if ia, isIA := x.Addr.(*ssa.IndexAddr); isIA && stripSlices(ia.X) == ssa.Value(mk) {
+					writes = append(writes, wr{fb.lin(ia.Index).add(linConst(1), 1), in})
+				}
+			}
+		})
+		if len(writes) < 3 {
+			continue
+		}
+		// the furthest end among the writes: all ends comparable with it
+		last := writes[0]
+		comparable := true
+		for _, w := range writes[1:] {
+			d := w.end.add(last.end, -1)
+			if !d.isConst() {
+				// symbolic: larger if all coefficients of the difference are >= 0
+				pos, neg := true, true
+				for _, coef := range d.T {
+					if coef < 0 {
+						pos = false
+					}
+					if coef > 0 {
+						neg = false
+					}
+				}
+				if pos && d.C >= 0 {
+					last = w
+				} else if !(neg && d.C <= 0) {
+					comparable = false
+				}
+				continue
+			}
+			if d.C > 0 {
+				last = w
+			}
+		}
+		if !comparable {
+			continue
+		}
+		d := S.add(last.end, -1)
+		if !d.isConst() {
+			continue
+		}
+		n++
+		r.Check(d.C == 0, rule, c.Name(fn)+"#last-field-ends-at-the-end-of-the-buffer", c.InstrPos(last.in), fmt.Sprintf("buffer of %s bytes; the last field ends at %s (difference %d)", fb.linString(S), fb.linString(last.end), d.C))
+	}
+	if n < floor {
+		r.Shortfall(c, rule, fmt.Sprintf("%s: only %d loop-free serializers with a decidable end found (expected >= %d)", rule, n, floor))
+	}
+}
+
+func init() {
+	registry["C11"].Meta.Rules["C11.16"] = "a serializer fills the buffer it made: in every loop-free function that makes one byte buffer and puts at least three fields into it, the end of the furthest field and the buffer's length - where both are linear forms over the same symbols - are equal (a dropped or doubled cursor advance shifts the later fields and shows as a constant difference)"
+	registry["C11"].Rules = append(registry["C11"].Rules, func(c *Ctx, r *Result) { serializerFillsBufferRule(c, r, "C11.16", 3) })
+}
